@@ -444,6 +444,34 @@ func shapeFacts() map[string]any {
 		loopOK = len(cl) > 0 && len(lk) > 0 && minPos(cl) < minPos(lk)
 	}
 	out["shape_checkloop_before_ns_lookup"] = loopOK
+
+	// the cache's alias chase re-checks the request deadline on every hop: inside the `lookup:` loop,
+	// before the internal exchange, `if contextutil.EffectiveError(ctx) != nil { return … }`
+	chaseOK := false
+	cf := parseFile("middleware/cache/cache.go")
+	if fd := cf.fn("Cache", "additionalAnswer"); fd != nil {
+		var label, check, jump token.Pos
+		ast.Inspect(fd.Body, func(x ast.Node) bool {
+			switch st := x.(type) {
+			case *ast.LabeledStmt:
+				if st.Label.Name == "lookup" {
+					label = st.Pos()
+				}
+			case *ast.BranchStmt:
+				if st.Tok == token.GOTO && st.Label != nil && st.Label.Name == "lookup" {
+					jump = st.Pos()
+				}
+			case *ast.IfStmt:
+				if check == 0 && strings.Contains(cf.text(st.Cond), "EffectiveError(ctx) != nil") && hasReturn(st.Body) {
+					check = st.Pos()
+				}
+			}
+			return true
+		})
+		ex := callsNamed(fd.Body, "internalExchange")
+		chaseOK = label != 0 && check != 0 && jump != 0 && len(ex) > 0 && label < check && check < minPos(ex) && minPos(ex) < jump
+	}
+	out["shape_chase_checks_deadline"] = chaseOK
 	return out
 }
 
